@@ -165,3 +165,79 @@ def rule_dim_row(mod, rep):
         rep.check(guarded, "DIM-ROW", "sp_colorder#qrnzcnt-row-dimension", "call dominated by a comparison of A->nrow with A->ncol",
                   "sp_colorder passes row indices of an nrow x ncol matrix to qrnzcnt(n = ncol, ...) without relating nrow to ncol: for nrow > ncol qrnzcnt reads and writes past "
                   "its n-sized work arrays (and past the caller's iperm[])", c.loc, f.name)
+
+
+# ---------------------------------------------------------------------------------------------------------------------------------
+# LANGS-NORMS (C19): every documented norm selector of ?langs yields a value
+# ---------------------------------------------------------------------------------------------------------------------------------
+def rule_langs_norms(mod, rep):
+    rep.rule("LANGS-NORMS", "?langs: for each documented selector (M; 1, O; I; F, E) the branch taken when the selector matches reaches the return of a value computed from "
+             "the matrix entries and does not run into the library's abort", floor=16)
+    for prec, f in fam(mod, "?langs"):
+        rep.scope([f.name])
+        kn = f.pindex("norm")
+        sel = {}
+        for c in f.calls("lsame_"):
+            if len(c.ops) >= 2 and c.ops[1][0] == "s":
+                sel.setdefault(c.ops[1][1][:1].upper(), []).append(c)
+        # the literal test  *norm == '1'
+        ones = [x for x in f.insts() if x.op == "icmp" and x.pred in ("eq", "ne") and any(is_const(o, ord("1")) for o in x.ops)]
+        for ch in ("M", "O", "1", "I", "F", "E"):
+            tests = []
+            if ch == "1":
+                for x in ones:
+                    for blk, t_true, t_false in branch_edges_on(f, x):
+                        tests.append((x, t_true if x.pred == "eq" else t_false))
+            else:
+                for c in sel.get(ch, []):
+                    # result compared with 0 and branched on
+                    for u in f.uses.get(c.i, []):
+                        if u.op == "icmp" and any(is_const(o, 0) for o in u.ops):
+                            for blk, t_true, t_false in branch_edges_on(f, u):
+                                tests.append((c, t_false if u.pred == "eq" else t_true))
+            if not tests:
+                rep.fail("LANGS-NORMS", "%s#norm-%s" % (f.name, ch), "selector '%s' is documented but never tested" % ch, f.file, f.name)
+                continue
+            for (x, tgt) in tests[:1]:
+                start = f.blocks[tgt].insts[0]
+                r = f.reach([start], include_start=True)
+                aborts = [f.inst[i] for i in r if f.inst[i].op == "call" and (f.inst[i].callee or "") in mod.noreturn]
+                # an abort that is reachable only through a failed allocation test is not the selector's fate: require that a return is reachable
+                # without passing any abort, and that no abort *dominates* every return from this edge
+                r2 = f.reach([start], stop=lambda y: y.op == "call" and (y.callee or "") in mod.noreturn, include_start=True)
+                rets = [i for i in r2 if f.inst[i].op == "ret"]
+                first_ab = [a for a in aborts if f.dominates(start, a) and all(not (z.op == "br" and len(z.bb.succ) > 1) for z in _straight(f, start, a))]
+                rep.check(bool(rets) and not first_ab, "LANGS-NORMS", "%s#norm-%s" % (f.name, ch), "selector '%s' returns a value" % ch,
+                          "selector '%s' is documented ('%s') but the routine aborts ('Not implemented') instead of returning the norm"
+                          % (ch, {"F": "Frobenius norm", "E": "Frobenius norm"}.get(ch, ch)), x.loc, f.name)
+
+
+def _straight(f, a, b):
+    """instructions on the straight-line path from a to b if b is reached from a without any conditional branch, else a list containing that branch"""
+    out = []
+    cur = a
+    seen = 0
+    while cur is not None and cur.i != b.i and seen < 400:
+        seen += 1
+        out.append(cur)
+        nx = f.next_insts(cur)
+        if len(nx) != 1:
+            return out
+        cur = nx[0]
+    return out
+
+
+# ---------------------------------------------------------------------------------------------------------------------------------
+# GEMV-TOTAL (C19): sp_?gemv serves every argument combination its prologue accepts
+# ---------------------------------------------------------------------------------------------------------------------------------
+def rule_gemv_total(mod, rep):
+    from .ext import _owned_helpers
+    rep.rule("GEMV-TOTAL", "sp_?gemv (and its static helpers): no call of the library's abort is reachable - every combination of trans, incx, incy that the argument check "
+             "accepts is computed (the header documents arbitrary non-zero increments)", floor=4)
+    for prec, f in fam(mod, "sp_?gemv"):
+        fs = [f] + [h for (h, c, g) in _owned_helpers(mod, f)]
+        rep.scope([x.name for x in fs])
+        ab = [c for g in fs for c in g.calls() if (c.callee or "") in mod.noreturn]
+        rep.check(not ab, "GEMV-TOTAL", "%s#no-abort" % f.name, "no abort reachable in %d function(s)" % len(fs),
+                  "sp_%sgemv aborts at %s for an argument combination its prologue accepted (increment other than 1 on the %s side)" %
+                  (prec, ab[0].loc if ab else "?", "output" if ab else ""), ab[0].loc if ab else f.file, f.name)
